@@ -259,20 +259,28 @@ def _int_table_lookup(d, i):
         raise KeyError('symbolic key outside table')
     vals = [d[k] for k in keys]
     if all(isinstance(v, int) and not isinstance(v, bool) for v in vals):
+        # exact piecewise-constant encoding: maximal runs of consecutive keys with the same value, as a balanced If-tree
         eng = E.cur()
-        tab = getattr(eng, '_tables', None)
-        if tab is None:
-            tab = eng._tables = {}
-        ent = tab.get(id(d))
-        if ent is None:
-            f = z3.Function('T%d' % len(tab), z3.IntSort(), z3.IntSort())
-            ent = tab[id(d)] = (f, [f(k) == d[k] for k in keys], d)
-        f, facts, _ = ent
-        if id(d) not in eng.path_tables:
-            eng.path_tables.add(id(d))
-            for fa in facts:
-                eng.add(fa)
-        return SymInt(f(i.term))
+        cache = getattr(eng, '_tables', None)
+        if cache is None:
+            cache = eng._tables = {}
+        runs = cache.get(id(d))
+        if runs is None or runs[1] is not d:
+            rl = []
+            for k_, v_ in zip(keys, vals):
+                if rl and rl[-1][2] == v_ and rl[-1][1] == k_ - 1:
+                    rl[-1][1] = k_
+                else:
+                    rl.append([k_, k_, v_])
+            runs = cache[id(d)] = (rl, d)
+        rl = runs[0]
+
+        def tree(lo, hi):
+            if lo == hi:
+                return z3.IntVal(rl[lo][2])
+            mid = (lo + hi) // 2
+            return z3.If(i.term <= rl[mid][1], tree(lo, mid), tree(mid + 1, hi))
+        return SymInt(tree(0, len(rl) - 1))
     return d[i.__index__()]
 
 
